@@ -97,6 +97,7 @@ pub fn run(rep: &'static Report) {
         (vec![], vec![vec![]]),
         (plaintext(seed ^ 0x81, 100), vec![vec![], vec![1], vec![50, 49], vec![99, 1]]),
         (plaintext(seed ^ 0x82, CS + 5), vec![vec![], vec![1], vec![CS, 1], vec![CS - 1, 1, 5]]),
+        (plaintext(seed ^ 0x85, CS + 150), vec![vec![100, CS, 50], vec![4096, CS]]),
     ];
     let pays = [derive32(seed, "c08-pay-0"), derive32(seed, "c08-pay-1")];
     let mut jobs = vec![];
